@@ -350,3 +350,12 @@ impl vstd::std_specs::convert::FromSpecImpl<usize> for Degree {
     open spec fn from_spec(v: usize) -> Degree { Degree(v as u32) }
 }
 impl From<usize> for Degree { #[verifier::external_body] fn from(v: usize) -> (r: Degree) { Degree(v as u32) } }
+impl vstd::std_specs::cmp::PartialOrdSpecImpl<u32> for Degree {
+    open spec fn obeys_partial_cmp_spec() -> bool { true }
+    open spec fn partial_cmp_spec(&self, other: &u32) -> Option<core::cmp::Ordering> {
+        if self.0 < *other { Some(core::cmp::Ordering::Less) } else if self.0 == *other { Some(core::cmp::Ordering::Equal) } else { Some(core::cmp::Ordering::Greater) }
+    }
+}
+impl core::cmp::PartialOrd<u32> for Degree {
+    #[verifier::external_body] fn partial_cmp(&self, other: &u32) -> Option<core::cmp::Ordering> { self.0.partial_cmp(other) }
+}
